@@ -171,12 +171,15 @@ let run_topo (with_route : bool) (toks : string list ref) : string =
     if not with_route then ""
     else begin
       let rm = Topo.routing_meta m in
-      let ld = Slot.slot_map_dump (Slot.slot_map_new rm.Slot.m_local) in
-      let pd = Slot.slot_map_dump (Slot.slot_map_new rm.Slot.m_peer) in
-      let owners = List.map2 (fun l p ->
-          match l with
-          | Some a -> "L" ^ str_of_bytes a
-          | None -> (match p with Some a -> "M" ^ str_of_bytes a | None -> "-")) ld pd in
+      (* owner SETS: with overlapping entries (a migrating range is listed at its source and its destination) the table
+         winner depends on HashMap order; the implementation's answer must be a member *)
+      let set m s = match Slot.owners m (n_of_int s) with
+        | [] -> None
+        | l -> Some (String.concat "|" (List.sort_uniq compare (List.map str_of_bytes l))) in
+      let owners = List.init slot_num (fun s ->
+          match set rm.Slot.m_local s with
+          | Some a -> "L" ^ a
+          | None -> (match set rm.Slot.m_peer s with Some a -> "M" ^ a | None -> "-")) in
       " | route " ^ rle owners
     end in
   "nodes " ^ String.concat ";" (List.sort compare nodes) ^ " | slots " ^ slots ^ route
